@@ -190,10 +190,11 @@ class C09(StdCheck):
             what = f"spec:{self.prop}:{cl}" + (":" + cls if cls else "")
             res.spec_failures.append(runner.Finding("spec", what, shown, {"driver": l},
                                                     {"clause": cl, "pre_class": cls, "post": self._driver_lines(shown)}))
-        n = 0
+        n = tried_m = 0
         seen_m = set()
         for l in lines:
-            if l.startswith("MISMATCH") and n < 3:
+            if l.startswith("MISMATCH") and n < 3 and tried_m < 6:
+                tried_m += 1   # bounded number of shrink attempts (many mismatches minimise to the same witness)
                 kv = core.parse_kv(l)
                 case = runner.extract_case(save, int(kv["case"]), self.case_start)
                 shown = self.shrink(harness, driver, case, "MISMATCH")
